@@ -3,7 +3,7 @@ import Dino.Units
 
 Scale operations run at the scalar of the mode (`Float` or `Rat`); the operations on affine (offset)
 units are `anondim`, `adim`, `aconv` (and `alin`, the linearised variant that is NOT the code).  The time conversions run on
-`Rat` in both modes: at `F` every double is converted to the rational it denotes, the model is
+`Rat` in both modes (and so does `orbfl`, the orbital phase operation by operation): at `F` every double is converted to the rational it denotes, the model is
 run with `fl := fl53`, and results are sent back as doubles (exact, since every result of `fl53`
 is a double); at `Q` the model is run with `fl := id`. -/
 namespace Dino.Units
@@ -189,6 +189,10 @@ def runT (M : TimeMode) : List String → Option String
       match T with
       | none => pure "value-error"
       | some T => pure (M.render (radTime M.fl T days secs))
+  | ["orbfl", twoPi, ref, rate, ts] => do
+      let twoPi ← M.parse? twoPi; let ref ← M.parse? ref; let rate ← M.parse? rate
+      let ts ← M.parseVec? ts
+      pure (M.renderVec (ts.map (timeToOrbitalFl M.fl twoPi ref rate)))
   | _ => none
 
 def run : List String → Option String
